@@ -56,6 +56,36 @@ pub struct Names {
 }
 
 impl Names {
+    /// identifier shapes that interact with anthem's TPTP name mangling but are handled:
+    /// names ending in _i/_g/_s/__s, h-/t-prefixed names, a symbol named like a 0-ary predicate
+    pub fn tricky(c: &mut Chooser) -> Names {
+        let mut n = Names::clean(c);
+        let p = |s: &str, a: usize| (s.to_string(), a);
+        if c.flag(1, 2) {
+            n.inputs = vec![p("q_i", 1)];
+        }
+        n.outputs = match c.next(4) {
+            0 => vec![p("p_g", 1), p("tp", 1)],
+            1 => vec![p("o1", 1), p("ho1", 1)],
+            2 => vec![p("x__s", 1)],
+            _ => vec![p("o1", 1), p("o_s", 1)],
+        };
+        let (lp, rp) = match c.next(3) {
+            0 => (vec![p("hp", 1)], vec![p("hp", 1)]),
+            1 => (vec![p("a_i", 1), p("b", 1)], vec![p("a_i", 1), p("c_g", 1)]),
+            _ => (vec![p("a", 1)], vec![p("a", 1)]),
+        };
+        n.left_private = lp;
+        n.right_private = rp;
+        n.symbols = vec!["u".into(), "s_s".into(), "b__s".into(), "m_g".into(), "aB_1".into()];
+        if c.flag(1, 2) {
+            // a 0-ary output predicate whose name is also used as a symbol (anthem renames the symbol)
+            n.outputs.push(p("z", 0));
+            n.symbols = vec!["z".into(), "z0".into(), "zA".into(), "y".into(), "z_".into()];
+        }
+        n
+    }
+
     pub fn clean(c: &mut Chooser) -> Names {
         let p = |s: &str, a: usize| (s.to_string(), a);
         let mut placeholders = vec![];
@@ -91,10 +121,10 @@ impl Names {
 }
 
 fn atom(p: &Pred, args: Vec<asp::Term>) -> asp::Atom {
-    debug_assert_eq!(p.1, args.len());
+    // 0-ary predicates (used as heads only) take no arguments
     asp::Atom {
         predicate_symbol: p.0.clone(),
-        terms: args,
+        terms: if p.1 == 0 { vec![] } else { args },
     }
 }
 
@@ -218,10 +248,13 @@ pub fn program(c: &mut Chooser, names: &Names, private: &[Pred], outputs: &[Pred
                 negatable.push(other.clone());
             }
         }
+        let negatable: Vec<Pred> = negatable.into_iter().filter(|q| q.1 > 0).collect();
         for _ in 0..n {
             rules.push(rule_for(c, names, o, &lower, &negatable, true));
         }
-        lower.push(o.clone());
+        if o.1 > 0 {
+            lower.push(o.clone());
+        }
     }
     // constraints
     if c.flag(1, 3) {
@@ -397,7 +430,7 @@ fn fvar(v: &str) -> fol::GeneralTerm {
 fn fatom(p: &Pred, t: fol::GeneralTerm) -> fol::Formula {
     fol::Formula::AtomicFormula(fol::AtomicFormula::Atom(fol::Atom {
         predicate_symbol: p.0.clone(),
-        terms: vec![t],
+        terms: if p.1 == 0 { vec![] } else { vec![t] },
     }))
 }
 
@@ -674,6 +707,10 @@ pub struct ExternalTask {
 /// program-vs-program (2/3) or specification-vs-program (1/3)
 pub fn external_task(c: &mut Chooser) -> ExternalTask {
     let names = Names::clean(c);
+    external_task_with(c, names)
+}
+
+pub fn external_task_with(c: &mut Chooser, names: Names) -> ExternalTask {
     let ug = ug_assumptions(c, &names);
     if c.flag(2, 3) {
         let left = program(c, &names, &names.left_private.clone(), &names.outputs.clone());
